@@ -20,15 +20,19 @@ MANIFEST = {
             'bound is false of the model (F-C05). Every run the REAL SecFlt operations + - * / and six comparisons (m=1 for '
             'volume; simulator (3,1) PRSS on/off and (2,0)) are opened as exact (S,e) pairs, checked for membership in the '
             'model result set over all tapes (constructor, +, -, *, comparisons) and against the property bounds (2u, 16u, '
-            'comparison band) with exact Fraction arithmetic.',
+            'comparison band) with exact Fraction arithmetic; floats adjacent to powers of two, 2^k and +-2^1023 (float and int) are '
+            'ordinary constructor cases compared with flt_input; outputs of secure floats (positive, negative, zero, tiny, huge, '
+            'operation results, lists) to proper receiver subsets (int, [0], [2], [1,2], [2,0]) are checked for m=3 (PRSS on/off) and '
+            'm=2: receivers get the exact masked value and agree, non-receivers get None.',
     'note': 'PARTIAL: no Coq theorem for addition/subtraction/comparisons (flt_add is modelled and tied by the correspondence '
             'run, but its invariant/add_bound/cmp_exact_outside_band are not proved) nor for division (runtime._rec Newton '
             'iteration not modelled; / is covered by the implementation oracle only). Trusted: Coq kernel+vm_compute; '
             'hand-written model Flt.v at value level (sharing, resharing, to_bits/find/unit_vector modelled by their specified '
             'results; secint exponent comparisons assumed exact, which holds while |e1-e2| < 2^E and f <= 2^E). The model uses '
-            'exact ceil(log2|x|); the implementation uses float math.log (deviation = finding F-C05-2). Proved constants 1 '
-            '(I/O) and 4 (mul) are smaller than the 2 / 16 of the property. Known findings: F-C05-1 exact-zero operand with '
-            'larger exponent, F-C05-2 constructor assertion next to powers of two, F-C05-3 cancellation zero whose exponent '
+            'exact ceil(log2|x|) = log2_up|M|+q, as the constructor does since fix 21d2986 (math.frexp / int.bit_length; '
+            'F-C05-2 fixed). Proved constants 1 '
+            '(I/O) and 4 (mul) are smaller than the 2 / 16 of the property. Open known findings: F-C05-1 exact-zero operand with '
+            'larger exponent, F-C05-3 cancellation zero whose exponent '
             'leaves the exponent type, F-C05-4 types with f > 2^E (e.g. SecFlt(8)).',
     'technique': 'Coq proof (Z/Q arithmetic, tape-quantified) + vm_compute set-membership correspondence + exact Fraction oracle '
                  'on real multi-party runs',
@@ -170,13 +174,6 @@ def ceil_log2(x):
     return k
 
 
-def ctor_safe(x):
-    """the constructor's own float math.log gives the exact exponent (otherwise: finding class ctor)"""
-    if x == 0:
-        return True
-    return math.ceil(math.log(abs(x), 2)) == ceil_log2(Fr(x))
-
-
 class Gen:
     def __init__(self, rng, s, E):
         self.rng, self.s, self.E, self.f = rng, s, E, s - 1
@@ -199,7 +196,7 @@ class Gen:
         return M
 
     def flt(self, e=None, sign=None):
-        """float with ceil(log2|x|) == e (e in the exponent range); safe for the constructor's math.log"""
+        """float with ceil(log2|x|) == e (e in the exponent range)"""
         r = self.rng
         if e is None:
             e = r.choice([self.emin, self.emin + 1, self.emax, self.emax - 1, 0, 1, -1] +
@@ -352,11 +349,7 @@ class Checker:
         for ri, r in enumerate(recs):
             op = r['op']
             if op == 'EXC':
-                vals = [v for v in job[1:4] if isinstance(v, float)]
-                if r['exc'] in ('Assert', 'OverflowError') and any(not ctor_safe(v) for v in vals):
-                    self.viol(None, 'ctor assert near-power-of-two', {'job': repr(job), 'rec': r})
-                else:
-                    self.viol(None, 'exception %s in %s' % (r['exc'], job[0]), {'job': repr(job), 'rec': r})
+                self.viol(None, 'exception %s in %s' % (r['exc'], job[0]), {'job': repr(job), 'rec': r})
                 continue
             z = tuple(r['z'])
             out = float.fromhex(r['out'])
@@ -375,11 +368,8 @@ class Checker:
                     self.viol(None, 'not-normalised io', {'job': repr(job), 'rec': r})
                 n, d = A.numerator, A.denominator
                 q = -(d.bit_length() - 1)
-                if ctor_safe(a):
-                    self.exprs.append('[flt_input %s %s %s]' % (F, zlit(n), zlit(q)))
-                    self.meta.append(('set', job, r, list(z)))
-                else:
-                    self.ctx.extra['ctor_log_inexact_inputs'] = self.ctx.extra.get('ctor_log_inexact_inputs', 0) + 1
+                self.exprs.append('[flt_input %s %s %s]' % (F, zlit(n), zlit(q)))
+                self.meta.append(('set', job, r, list(z)))
                 continue
             x = tuple(r['x'])
             vx = val(x, f)
@@ -492,6 +482,109 @@ def gen_jobs(g, npairs, nops, nio, nchain, nrop):
     return jobs
 
 
+def subset_specs(m):
+    if m == 2:
+        return [0, 1, [0], [1]]
+    return [0, m - 1, [0], [2], [1, 2], [2, 0]] + ([[1, 3, 0]] if m > 3 else [])
+
+
+def make_out_prog(s, E, items, specs):
+    f = s - 1
+
+    async def prog(mpc, mods, pid):
+        secflt = mpc.SecFlt(s=s, e=E)
+        out = []
+        for item in items:
+            try:
+                a, b, op = item
+                x = mpc.input(secflt(a), senders=0)
+                if op is not None:
+                    y = mpc.input(secflt(b), senders=len(mpc.parties) - 1)
+                    x = -x if op == 'neg' else _apply(op, x, y)
+                S = await mpc.output(x.share[0])
+                e = await mpc.output(x.share[1])
+                rec = {'ref': [int(S * 2**f), int(e)], 'outs': []}
+                for spec in specs:
+                    o = await mpc.output(x, receivers=spec)
+                    rec['outs'].append(None if o is None else o.hex() if isinstance(o, float) else repr(o))
+                # a list of two secure floats to the last spec
+                o2 = await mpc.output([x, -x], receivers=specs[-1])
+                rec['list'] = [None if o is None else o.hex() if isinstance(o, float) else repr(o) for o in o2]
+                out.append(rec)
+            except Exception as exc:  # noqa
+                out.append({'exc': type(exc).__name__, 'msg': repr(exc)[:200]})
+        return out
+    return prog
+
+
+def check_subset_outputs(ctx, m, t, no_prss, s, E):
+    from lib.sim import Sim
+    rng = ctx.rng
+    g = Gen(rng, s, E)
+    f, u = s - 1, Fr(1, 2**(s - 1))
+    tiny, huge = math.ldexp(1.5, g.emin), math.ldexp(1.75, g.emax - 1)
+    items = [(3.5, None, None), (-3.5, None, None), (0.0, None, None), (-0.0, None, None), (tiny, None, None), (-tiny, None, None),
+             (huge, None, None), (-huge, None, None), (-1.0, None, None), (0.5, None, None), (-0.1, None, None),
+             (1.5, -2.25, 'add'), (-1.5, 1.25, 'mul'), (2.5, 2.5, 'sub'), (-tiny, tiny, 'add'), (1.0, 3.0, 'div'),
+             (-3.0, 2.0, 'lt'), (3.0, 2.0, 'lt'), (-2.75, None, 'neg'), (-6.0, 7.0, 'sub')]
+    for _ in range(ctx.n(4, 20)):
+        items.append((g.flt(), None, None))
+        a, b = g.flt(e=rng.randint(-2, 2)), g.flt(e=rng.randint(-2, 2))
+        items.append((a, b, rng.choice(['add', 'sub', 'mul'])))
+    items = [(a, 0.0 if b is None and op == 'neg' else b, op) for (a, b, op) in items]
+    specs = subset_specs(m)
+    cfg = 'm=%d t=%d %s' % (m, t, 'no-prss' if no_prss else 'prss')
+    tname = 'SecFlt(s=%d,e=%d)' % (s, E)
+    sim = Sim(m=m, t=t, no_prss=no_prss, seed=ctx.seed + 7 * m + s, log_messages=False, track_tasks=False)
+    try:
+        sim.start()
+        res = sim.run(make_out_prog(s, E, items, specs), idle_limit=3000)
+        if all(isinstance(r, list) for r in res):
+            sim.shutdown()
+    finally:
+        sim.close()
+    if any(not isinstance(r, list) for r in res):
+        ctx.violation('output-subset run-failed %s' % tname, {'config': cfg, 'results': [repr(r)[:300] for r in res]})
+        return
+    nchk = 0
+    for ii, item in enumerate(items):
+        recs = [res[p][ii] for p in range(m)]
+        det = {'type': tname, 'config': cfg, 'item': repr(item), 'per_party': recs}
+        if any('exc' in r for r in recs):
+            ctx.violation('output-subset exception %s' % tname, det)
+            continue
+        if any(r['ref'] != recs[0]['ref'] for r in recs):
+            ctx.violation('output-subset parties-disagree %s' % tname, det)
+            continue
+        v = val(tuple(recs[0]['ref']), f)
+        a, b, op = item
+        for si, spec in enumerate(specs):
+            rset = {spec} if isinstance(spec, int) else set(spec)
+            for p in range(m):
+                o = recs[p]['outs'][si]
+                nchk += 1
+                if p in rset:
+                    ok = isinstance(o, str) and o.startswith(('0x', '-0x')) and Fr(float.fromhex(o)) == v
+                    if ok and op is None and abs(Fr(float.fromhex(o)) - Fr(a)) > 2 * u * abs(Fr(a)):
+                        ok = False
+                    if not ok:
+                        ctx.violation('output-subset receiver-wrong-value %s' % tname, dict(det, receivers=repr(spec), party=p, got=o, want=str(v)))
+                elif o is not None:
+                    ctx.violation('output-subset non-receiver-got-value %s' % tname, dict(det, receivers=repr(spec), party=p, got=o))
+        rset = {specs[-1]} if isinstance(specs[-1], int) else set(specs[-1])
+        for p in range(m):
+            o2 = recs[p]['list']
+            want = [v, -v]
+            if p in rset:
+                if not (all(isinstance(o, str) for o in o2) and [Fr(float.fromhex(o)) for o in o2] == want):
+                    ctx.violation('output-subset receiver-wrong-value %s' % tname, dict(det, receivers=repr(specs[-1]), party=p, got=o2, form='list'))
+            elif any(o is not None for o in o2):
+                ctx.violation('output-subset non-receiver-got-value %s' % tname, dict(det, receivers=repr(specs[-1]), party=p, got=o2, form='list'))
+        ctx.case([s, E, cfg, 'out-subset', recs[0]['ref'], repr(item)], kind='output to receiver subsets m=%d' % m)
+    ctx.extra['subset_output_checks'] = ctx.extra.get('subset_output_checks', 0) + nchk
+    ctx.log('%s %s: outputs of %d values to receiver subsets %s: %d party-level checks' % (tname, cfg, len(items), specs, nchk))
+
+
 FC05 = [(11, 5, 1e-4), (24, 8, 1e-9)]
 
 
@@ -531,6 +624,19 @@ def run(ctx):
             if (fs, fE) == (s, E):
                 jobs.append(('bin', x, 0.0, ['add', 'sub', 'gt', 'eq'], 'zero'))
                 jobs.append(('bin', 0.0, x, ['add', 'lt'], 'zero'))
+        if m == 1 and (s, E) == (24, 8):
+            # powers of two and their float neighbours (the class of the fixed finding F-C05-2): ordinary I/O cases
+            for k in range(-100, 101):
+                p2 = math.ldexp(1.0, k)
+                jobs.append(('io', math.nextafter(p2, math.inf) * rng.choice([1, -1])))
+                if k % ctx.n(4, 1) == 0:
+                    jobs.append(('io', p2 * rng.choice([1, -1])))
+                    jobs.append(('io', math.nextafter(p2, 0.0) * rng.choice([1, -1])))
+        if m == 1 and (s, E) == (53, 11):
+            # extremes of the 11-bit exponent type, float and int
+            for v in (2.0**1023, -2.0**1023, 2**1023, -(2**1023), math.nextafter(2.0**1023, 0.0), math.nextafter(2.0**1022, math.inf),
+                      2.0**-1022, -math.nextafter(2.0**-1021, 0.0), 2**1023 - 2**970, 2**60 + 1, -(2**53 + 1)):
+                jobs.append(('io', v))
         if (s, E) == (11, 5):      # F-C05-3 replay: cancellation zero with exponent -23 outside the 5-bit exponent type
             jobs.append(('chain', 1e-4, 1e-4, 30000.0, 'sub', 'add', 'l'))
         cfg = 'm=%d t=%d %s' % (m, t, 'no-prss' if np_ else 'prss')
@@ -555,25 +661,13 @@ def run(ctx):
             key = 'max_rel_err_over_u_' + k
             ctx.extra[key] = max(ctx.extra.get(key, 0), round(float(v), 3))
 
-    # ---- constructor near powers of two (math.log rounding): finding class 'ctor'
+    # ---- output of secure floats to PROPER SUBSETS of the parties (SecureFloat._output, leader-masking branch)
+    for (m, t, np_) in [(3, 1, False), (3, 1, True), (2, 0, False)] + ([(4, 1, False), (5, 2, True)] if ctx.tier == 'thorough' else []):
+        for (s, E) in [(11, 5), (5, 4)] + ([(24, 8)] if (m, np_) == (3, False) or ctx.tier == 'thorough' else []):
+            check_subset_outputs(ctx, m, t, np_, s, E)
+
     import importlib
     importlib.import_module('mpyc.runtime')      # fresh m=1 copy (Sim.close() removed the party copies)
-    sectypes = importlib.import_module('mpyc.sectypes')
-    secflt = sectypes.SecFlt(32)
-    nbad = 0
-    ntry = 0
-    for k in range(-100, 101):
-        for v in (math.ldexp(1.0, k), math.nextafter(math.ldexp(1.0, k), math.inf), math.nextafter(math.ldexp(1.0, k), 0.0)):
-            ntry += 1
-            try:
-                secflt(v)
-            except AssertionError as exc:
-                nbad += 1
-                ctx.violation('ctor assert near-power-of-two SecFlt(32)',
-                              {'value': v.hex(), 'log2': repr(math.log(v, 2)), 'exc': repr(exc)[:200]})
-            ctx.case(['ctor', v.hex()], kind='ctor pow2-neighbour')
-    ctx.extra['ctor_pow2_neighbours_tried'] = ntry
-    ctx.extra['ctor_pow2_neighbours_assert'] = nbad
 
     # ---- narrow exponent types (f > 2^E): e.g. the default SecFlt(8) = SecFlt(s=6, e=2)
     for (s, E) in [(6, 2), (12, 3)]:
